@@ -30,17 +30,20 @@ ASSUMPTIONS = [
 OPEN_STATEMENTS = [
     'taper_spectrum: taper_off_qubits has exactly the spectrum of H on the joint +1 eigenspace (needs the unitary '
     'equivalence of the Z-sectors of the fixed qubits): checked numerically (eigvalsh, 1e-9) on every generated case; '
-    'proved are the term-level facts (fix_single_term preserves the action on stabilized states, qubit re-indexing is '
-    'the order-preserving bijection, projection onto a sector reproduces the embedded matrix elements term by term)',
-    'reduce_terms_agrees_on_codespace for whole operators (sum over terms, iteration over the stabilizer list with updated '
-    'stabilizers) and the existence of fixed positions: Spec oracle only',
+    'proved: the qubit re-indexing is the order-preserving bijection with "remove" exactly at the removed positions '
+    '(taper_reindex_spec) and the Pauli-table invariant of the fixed position (fixed_position_invariant)',
+    'fix_single_term_equiv / reduce_terms_agrees_on_codespace (multiplying by a stabilizer is the identity on its +1 '
+    'eigenspace; iteration over the updated stabilizer list; existence of fixed positions): exact Spec oracle only',
     '_reduce_terms_keep_length / _lookup_term: correspondence + Spec oracle only',
-    'rotate_qubit_by_pauli_sound: proved at the level of the ring identity on coefficients; the operator identity relies '
-    'on the C01 homomorphism and is checked by the Spec oracle (dense matrices, 1e-9)',
-    'freeze_orbitals_sound: proved for the scan of a single term (swap parity, occupancy); the full statement on Fock '
-    'space (sum over terms, several frozen orbitals) is checked by the exact embedded-matrix-element oracle',
-    'scbk_sector: no theorem; end-to-end sector spectra checked numerically, edit_hamiltonian_for_spin / remove_indices '
-    'by correspondence',
+    'project_onto_sector_sound for whole terms / operators: proved are the factor-level sector semantics '
+    '(sector_factor_spec) and the order-preserving re-indexing (project_reindex_order_preserving); the operator-level '
+    'statement is checked by the exact embedded-matrix-element oracle',
+    'rotate_qubit_by_pauli_sound: no theorem; Spec oracle (dense matrices of (c - i s P) Q (c + i s P), 1e-9)',
+    'freeze_orbitals_sound on Fock space (sum over terms, several frozen orbitals, occupied-orbital sign): proved is the '
+    'scan of a single term (deleted operators, swap count = true transpositions - n_ops, occupancy parity, hence correct '
+    'sign on surviving terms); the full statement is checked by the exact embedded-matrix-element oracle',
+    'scbk_sector: no theorem besides remove_indices_order_preserving; end-to-end sector spectra checked numerically '
+    '(n = 4; 6 in thorough), edit_hamiltonian_for_spin / remove_indices by correspondence',
 ]
 
 PAULI = {1: 'X', 2: 'Y', 3: 'Z'}
